@@ -186,6 +186,7 @@ def run(ctx):
     # ----------------------------------------------------------------- scan
     plain_names = {k.split(":")[1].split(".")[-1] for k, v in preds.items() if v == "plain"} | {"token_is_whitespace_token", "token_is_carriage_return"}
     n_scan = 0
+    n_single = 0
     for fi in sorted(p.functions.values(), key=lambda f: f.key):
         if not _in_scope(fi):
             continue
@@ -206,7 +207,35 @@ def run(ctx):
                         r.fail("C05.scan", kk, "a scan in the classifier steps over whitespace but stops at comments (`%s`): a comment inserted before the token changes the role assigned to it" % norm(n.test)[:80], fi.loc(n))
                     else:
                         r.ok("C05.scan", kk, "skips %s" % sorted(c.split(":")[1] for c in skipped), sample=n_scan < 4)
+        # a conditional single step: `if <layout test>(L[i]): i = i + 1` skips at most one layout token
+        in_loop_ifs = {id(n) for lp in walk_function(fi.node) if isinstance(lp, (ast.For, ast.While)) for n in ast.walk(lp) if isinstance(n, ast.If)}
+        for n in walk_function(fi.node):
+            if not isinstance(n, ast.If) or n.orelse or len(n.body) != 1 or id(n) in in_loop_ifs:
+                continue
+            st = n.body[0]
+            idx = None
+            if isinstance(st, ast.AugAssign) and isinstance(st.op, ast.Add) and isinstance(st.target, ast.Name) and isinstance(st.value, ast.Constant) and st.value.value == 1:
+                idx = st.target.id
+            elif isinstance(st, ast.Assign) and len(st.targets) == 1 and isinstance(st.targets[0], ast.Name):
+                v = st.value
+                t = st.targets[0].id
+                if isinstance(v, ast.BinOp) and isinstance(v.op, ast.Add) and norm(v.left) == t and isinstance(v.right, ast.Constant) and v.right.value == 1:
+                    idx = t
+                elif isinstance(v, ast.Call) and norm(v.func).split(".")[-1] == "increment_token_count" and len(v.args) == 1 and norm(v.args[0]) == t:
+                    idx = t
+            if idx is None:
+                continue
+            test = n.test.operand if isinstance(n.test, ast.UnaryOp) and isinstance(n.test.op, ast.Not) else n.test
+            if isinstance(n.test, ast.UnaryOp):
+                continue
+            skipped = _skip_classes(p, fi, test, plain_names)
+            if not skipped or not (skipped & WS) or not any(isinstance(x, ast.Subscript) and norm(x.slice) == idx for x in ast.walk(test)):
+                continue
+            n_scan += 1
+            n_single += 1
+            r.fail("C05.scan", "%s:single-step:%s" % (fi.key, norm(n.test)[:70]), "the classifier steps over at most one layout token (`if %s: %s`): a line break, a blank line or a comment at that place - all legal there - leaves the index on layout and changes the role assigned to what follows" % (norm(n.test)[:60], norm(st)[:40]), fi.loc(n))
     r.extra["scan_sites"] = n_scan
+    r.extra["single_step_skips"] = n_single
     # ----------------------------------------------------------------- case
     n_cmp = 0
     for fi in sorted(p.functions.values(), key=lambda f: f.key):
@@ -283,6 +312,11 @@ def _skip_classes(p, fi, test, plain_names):
 
 
 VARIANTS = [
+    Variant("C05", "instantiation look-ahead steps over one whitespace token instead of searching the colon", "fire",
+            [("vsg/vhdlFile/classify/component_instantiation_statement.py", "    iCurrent = utils.increment_token_count(iCurrent)\n    iCurrent = utils.find_next_token(iCurrent, lObjects)\n    if not utils.object_value_is(lObjects, iCurrent, \":\"):", "    iCurrent = utils.increment_token_count(iCurrent)\n    if utils.token_is_whitespace_token(lObjects[iCurrent]):\n        iCurrent = utils.increment_token_count(iCurrent)\n    if not utils.object_value_is(lObjects, iCurrent, \":\"):")],
+            rule="C05.scan", key="single-step"),
+    Variant("C05", "twin: instantiation look-ahead keeps the search, position held in a second local", "silent",
+            [("vsg/vhdlFile/classify/component_instantiation_statement.py", "    iCurrent = utils.increment_token_count(iCurrent)\n    iCurrent = utils.find_next_token(iCurrent, lObjects)\n    if not utils.object_value_is(lObjects, iCurrent, \":\"):", "    iAfterLabel = utils.increment_token_count(iCurrent)\n    iCurrent = utils.find_next_token(iAfterLabel, lObjects)\n    if not utils.object_value_is(lObjects, iCurrent, \":\"):")]),
     Variant("C05", "character-literal candidates filtered by index parity within the line", "fire",
             [("vsg/tokens.py", "        if lLiteral[1] == lNextLiteral[0] and lLiteral[0] == lPreviousLiteral[1]:", "        if iIndex % 2 == 1 and lLiteral[0] == lPreviousLiteral[1]:")], rule="C05.position"),
     Variant("C05", "name detection matches `(` only directly or after one whitespace token", "fire",
